@@ -43,6 +43,32 @@ def is_normalized(e, aliases):
     return False
 
 
+DS = 'pony.orm.dbschema'
+
+
+def flags_rule(ctx, prefix='C26-FLAGS', flags=('is_unique', 'is_not_null')):
+    """Column.get_sql, evaluated for "not the single-column primary key, flag set": every path to the end appends the keyword -- whatever else the
+    column is (part of a composite key, foreign key, ...)"""
+    from ..typestate import scenario_edges
+    repo, cg = ctx.repo, ctx.cg
+    gs = repo.fn(DS, 'Column.get_sql'); g = cg.cfg(gs); recv = gs.recv
+    KW = {'is_unique': 'UNIQUE', 'is_not_null': 'NOT NULL'}
+    for flag in flags:
+        def atom(text, node, flag=flag):
+            if isinstance(node, ast.Compare) and dotted(node.left) == recv + '.is_pk': return False            # is_pk == 'auto'
+            if isinstance(node, ast.Attribute) and dotted(node) == recv + '.is_pk': return False
+            if isinstance(node, ast.Attribute) and dotted(node) == recv + '.' + flag: return True
+            return None
+        eo = scenario_edges(g, gs.node, atom, resolve=False)
+        emits = [x for x in g.nodes if x.kind == 'stmt' and x.ast is not None and any(
+            isinstance(k, ast.Constant) and isinstance(k.value, str) and k.value.strip().upper() == KW[flag] for c in x.calls() for a in c.args for k in ast.walk(a))]
+        ok = bool(emits) and g.must_pass_after(g.entry, emits, exits=[g.exit], edge_ok=eo)
+        ctx.ob(prefix + '.column-flag-consumed-on-every-path', gs, emits[0].ast if emits else gs.node, ok,
+               '' if ok else 'a column that is not the single-column primary key and has %s set can be rendered without %s: the declared constraint is '
+               'missing from the DDL while the model still claims it (the database no longer rejects what the session cannot see)' % (flag, KW[flag]),
+               expected='append %s whenever column.%s holds' % (KW[flag], flag)).key += '::' + flag
+
+
 def run(ctx):
     repo, cg = ctx.repo, ctx.cg
     P = repo.cls(DP, 'DBAPIProvider')
@@ -89,19 +115,8 @@ def run(ctx):
                         '' if ok else '%s does not reject a duplicate (`%s` -> throw) before registering it: two schema objects can be emitted under one name' % (qual, w))
             ob.key += '::' + w
     # ---------------------------------------------------------------- FLAGS
-    gs = repo.fn(DS, 'Column.get_sql'); g = cg.cfg(gs); recv = gs.recv
-    pk_t = {t.id for t in g.nodes if t.kind == 'test' and norm(t.ast) == recv + '.is_pk'}
-    auto_t = {t.id for t in g.nodes if t.kind == 'test' and norm(t.ast).startswith("%s.is_pk == 'auto'" % recv)}
-    ctx.need(pk_t, 'C26-FLAGS: `if column.is_pk` not found in Column.get_sql')
-    for flag in ('is_unique', 'is_not_null'):
-        ft = [t for t in g.nodes if t.kind == 'test' and norm(t.ast) == '%s.%s' % (recv, flag)]
-        # paths that leave both pk tests through their false edge must evaluate the flag
-        rr = g.reach([g.entry], avoid=ft, edge_ok=lambda x, y, lab: not ((x in pk_t or x in auto_t) and lab == 'T'))
-        ok = bool(ft) and g.exit.id not in rr
-        ctx.ob('C26-FLAGS.column-flag-consumed-on-every-path', gs, ft[0].stmt if ft else gs.node, ok,
-               '' if ok else 'a column that is not the single-column primary key can be rendered without evaluating column.%s: the declared %s is '
-               'missing from the DDL while the model still claims it' % (flag, 'UNIQUE constraint' if flag == 'is_unique' else 'NOT NULL'),
-               expected='`if column.%s: append(...)` on every non-pk path' % flag).key += '::' + flag
+    flags_rule(ctx)
+    gs = repo.fn(DS, 'Column.get_sql'); recv = gs.recv
     txt = norm(gs.node, limit=100000)
     for what, needle in (('sql_default', 'column.sql_default'), ('auto template', 'column.auto_template %'), ('sql_type', 'column.sql_type'), ('ON DELETE', 'foreign_key.on_delete')):
         ok = needle.replace('column', recv) in txt
